@@ -18,7 +18,7 @@ def run(ctx):
         ctx.tlc_mc("client", "ClientRoundTripMC", "ClientRoundTripMC.cfg", workers=4, timeout=3000,
                    consts={"CALLS": "{1, 2}", "MAXSENDS": 2, "SLOPPY": "FALSE", "BODYUNITS": 1})  # retries / redirect hops, 1 body unit
         ctx.tlc_mc("client", "ClientRoundTripMC", "ClientRoundTripMC.cfg", workers=4, timeout=3000,
-                   consts={"CALLS": "{1, 2, 3}", "MAXSENDS": 1, "SLOPPY": "FALSE", "BODYUNITS": 2})
+                   consts={"CALLS": "{1, 2, 3}", "MAXSENDS": 1, "SLOPPY": "FALSE", "BODYUNITS": 1})  # 3 calls, 1 body unit
     ctx.exhaustive = True
     # anti-vacuity: without the design rule the model must exhibit a splice
     r = ctx.tlc("client", "ClientRoundTripMC", "ClientRoundTripMC.cfg", workers=4, timeout=1200,
@@ -36,6 +36,6 @@ def run(ctx):
         raise Infra("C04 harness produced no trace file")
     ctx.validate_traces("client", "ClientRoundTripTrace", tf, label="roundtrip", max_rounds=6)
     ctx.rule = "one case = one call (Do/DoTimeout/DoDeadline); non-trivial = the call got a streamed response, so the stream-close path decided about connection reuse"
-    ctx.assumptions = ["model constants: 2 connections, 2 calls (3 in the thorough tier), body of 2 units (1 unit in the thorough run with 2 transmissions per call), every strict prefix cut",
+    ctx.assumptions = ["model constants: 2 connections, 2 calls (3 in the thorough tier), body of 2 units (1 unit in the two larger thorough runs: 3 calls, and 2 transmissions per call), every strict prefix cut",
                        "the server sends one (possibly truncated) response per request; PipelineClient is covered by its own check",
                        "real-code schedules are sampled (seeded), not exhaustive"]
